@@ -206,7 +206,11 @@ def _key(T):
 def _same_type(a, b):
     if isinstance(a, tuple):
         return False
-    return a is b or (a == b and t.get_args(a) == t.get_args(b))
+    if a is b:
+        return True
+    if a == b and t.get_origin(a) in (t.Union, types.UnionType) and t.get_origin(b) in (t.Union, types.UnionType):
+        return True  # Optional[C] and None | C are one type (Union equality ignores the order of members)
+    return a == b and t.get_args(a) == t.get_args(b)
 
 
 def run_graph(n, adj, ka, kb, container, naming):
